@@ -159,6 +159,10 @@ func runC17(k *kernel.K) {
 			l.RecordResponse(op.in.ID, res)
 		case "export":
 			h := l.Export()
+			if op.gated {
+				k.Probe("export_read_later")
+				k.Park(fmt.Sprintf("read-export(caller%d)", op.caller))
+			}
 			var parts []string
 			for _, e := range h.Log.Entries {
 				c17EntryDescribes(k, e, "Export")
@@ -208,6 +212,11 @@ func runC17(k *kernel.K) {
 			op.in.ID = ids[k.W.Draw(len(ids))]
 		}
 		if kind == "req" && ncall > 1 {
+			op.gated = k.W.Chance(1, 3)
+		}
+		if kind == "export" && ncall > 1 {
+			// the caller looks at what Export handed it only later, as the export handler does when
+			// it encodes the result after the call has returned
 			op.gated = k.W.Chance(1, 3)
 		}
 		return op
